@@ -47,7 +47,7 @@ def run_failing(cfg, devs, device, n, t_end=2_000_000_003, kind="device", bus=No
         def after_update(self):
             self.k += 1
             if self.k == n:
-                raise RuntimeError(f"device c{device} fails (adapter hook) at update {n}")
+                raise slevel.failure(device, n, f"device c{device} fails (adapter hook) at update {n}")
 
     class BlockingIo:
         async def setup(self, adapter, raise_interrupt):
@@ -83,7 +83,7 @@ def run_failing(cfg, devs, device, n, t_end=2_000_000_003, kind="device", bus=No
 
         async def hce(self, message):
             obs["reported"] = slevel.cid(message.source)
-            obs["same_error"] = isinstance(message.error, RuntimeError) and any(
+            obs["same_error"] = isinstance(message.error, (RuntimeError, slevel.DeviceFault)) and any(
                 f"device c{x} fails" in str(message.error) for x in ([device, also] if also else [device]))
             seen["after"] = True
             return await orig_hce(self, message)
